@@ -87,6 +87,14 @@ pub fn plan_for(property: &str) -> Option<(&'static str, Vec<PlanItem>)> {
             "C19",
             vec![PlanItem { family: "tx_buffer", run: c19_tx, quick: 4000, thorough: 120000, determinism_check: true }],
         ),
+        "C04" => (
+            "C04",
+            vec![PlanItem { family: "rx_honesty", run: c04_rx, quick: 5000, thorough: 150000, determinism_check: true }],
+        ),
+        "C07" => (
+            "C07",
+            vec![PlanItem { family: "rx_timing", run: c07_rx, quick: 5000, thorough: 150000, determinism_check: true }],
+        ),
         "C16" => (
             "C16",
             vec![PlanItem { family: "direct_rtte", run: crate::fam::direct::direct_rtte, quick: 4000, thorough: 40000, determinism_check: false }],
@@ -358,6 +366,71 @@ fn c19_tx(ctx: &CaseCtx) -> CaseReport {
     }
     rep.counters.add("datagrams", view.pkts.len() as u64);
     rep.nontrivial = rep.counters.get("c19_write_returns_checked") > 1;
+    let end = run.end_time;
+    finish(&mut rep, ctx, &view, run.events, end);
+    rep
+}
+
+fn c04_rx(ctx: &CaseCtx) -> CaseReport {
+    use crate::fam::rxscript as rx;
+    let mut rep = CaseReport::new(ctx.family, ctx.index, ctx.case_seed);
+    let mut cfg = rx::generate(ctx.case_seed, rx::RxFocus::Honesty, if ctx.tier == Tier::Quick { 300 } else { 1500 });
+    cfg.keep_snapshots = ctx.index % 2 == 0;
+    rep.desc = cfg.describe();
+    let run = rx::run_rx(ctx.case_seed, &cfg);
+    if let Some(p) = &run.panicked {
+        rep.inconclusive.push(format!("panic during the run: {p}"));
+    }
+    let view = WireView::build(&run.events);
+    let real_addr = if cfg.ipv6 { crate::sim::v6(rx::REAL_PORT) } else { crate::sim::v4(rx::REAL_PORT) };
+    let reads_to_end = matches!(cfg.reader.stop, crate::app::ReaderStop::Never);
+    mon::c04::check(
+        &mut rep,
+        &run.events,
+        &view,
+        &mon::c04::Params {
+            real_is_initiator: cfg.real_initiates,
+            capacity: cfg.sock.rx_buf.unwrap_or(1024 * 1024),
+            lens: &cfg.lens,
+            respect_window: cfg.respect_window,
+            reader_reads_to_end: reads_to_end,
+            real_addr,
+        },
+    );
+    rep.counters.add("datagrams", view.pkts.len() as u64);
+    rep.nontrivial = rep.counters.get("c04_emitted_packets_checked") > 2;
+    let end = run.end_time;
+    finish(&mut rep, ctx, &view, run.events, end);
+    rep
+}
+
+fn c07_rx(ctx: &CaseCtx) -> CaseReport {
+    use crate::fam::rxscript as rx;
+    let mut rep = CaseReport::new(ctx.family, ctx.index, ctx.case_seed);
+    let focus = if ctx.index % 3 == 0 { rx::RxFocus::Honesty } else { rx::RxFocus::Timing };
+    let mut cfg = rx::generate(ctx.case_seed, focus, if ctx.tier == Tier::Quick { 120 } else { 500 });
+    // the endpoint's own data would make it a sender too; the timing rules are judged on a pure receiver
+    cfg.a_writes = 0;
+    rep.desc = cfg.describe();
+    let run = rx::run_rx(ctx.case_seed, &cfg);
+    if let Some(p) = &run.panicked {
+        rep.inconclusive.push(format!("panic during the run: {p}"));
+    }
+    let view = WireView::build(&run.events);
+    let real_addr = if cfg.ipv6 { crate::sim::v6(rx::REAL_PORT) } else { crate::sim::v4(rx::REAL_PORT) };
+    mon::c07::check(
+        &mut rep,
+        &run.events,
+        &view,
+        &mon::c07::Params {
+            real_is_initiator: cfg.real_initiates,
+            min_payload: cfg.sock.min_payload(!cfg.ipv6),
+            capacity: cfg.sock.rx_buf.unwrap_or(1024 * 1024),
+            real_addr,
+        },
+    );
+    rep.counters.add("datagrams", view.pkts.len() as u64);
+    rep.nontrivial = rep.counters.get("c07_emissions_seen") > 2;
     let end = run.end_time;
     finish(&mut rep, ctx, &view, run.events, end);
     rep
